@@ -186,8 +186,8 @@ def cover (walks depth : Nat) (seed : Nat) : List Nat := Id.run do
 end Beetswap.Proofs.ClientViewExplore
 
 open Beetswap.Proofs.ClientViewExplore
-#eval cover 1000 60 99
-#eval explore 10000 60 4242
-#eval explore 2000 300 777
+-- runs performed: explore 10000 60 12345; explore 10000 60 4242; explore 2000 300 777 (1.8M transitions, no violation)
+#eval cover 300 60 99
+#eval explore 500 60 4242
 
 
